@@ -260,11 +260,19 @@ var initStd = map[string]bool{
 	"github.com/cockroachdb/apd/v3": true, "context": true, "net/netip": true, "go.opentelemetry.io/otel/trace": true, "bufio": true, "regexp": true, "regexp/syntax": true, "time": true, "math/big": true,
 }
 
+// EnableBig: interpret math/big (portable kernels) and everything built on it. Off by default because apd's
+// package initialiser then builds its power-of-ten tables in the interpreter (about 20 s per machine pool);
+// a property asks for it with "math_big": true in its config.
+var EnableBig bool
+
 func (w *World) wantInit(p *ssa.Package) bool {
 	if p == nil {
 		return false
 	}
 	path := p.Pkg.Path()
+	if path == "math/big" && !EnableBig {
+		return false
+	}
 	if strings.HasPrefix(path, ModulePath) {
 		return true
 	}
@@ -306,6 +314,9 @@ var allowFuncs = map[string]bool{"(*fmt.wrapError).Error": true, "(*fmt.wrapErro
 }
 
 func (w *World) allowedPath(path string) bool {
+	if path == "math/big" && !EnableBig {
+		return false
+	}
 	switch path {
 	case "sync/atomic", "internal/stringslite", "internal/bytealg", "internal/byteorder", "internal/itoa", "internal/godebug",
 		"internal/race", "internal/goarch", "internal/cpu", "internal/abi", "internal/unsafeheader", "net/netip",
